@@ -158,7 +158,12 @@ def work(p):
         yf = gm.FuncSpec(78, "yield_family", [], "module", "gen")
         yf.params = [gm.Param("a", "normal", vals=["1"])]
         yf.yield_vals, yf.single_yield, yf.exit = ["1", "'s'", "A()"], True, "none"
-        extra = [fam, tdf, tup, abcf] + dds + [hist, yf]
+        # None next to dicts of one key type and several value types (the neighbourhood of RewriteConfigDict), also nested
+        cfgf = gm.FuncSpec(77, "cfg_family", [], "module", "plain")
+        cfgf.params = [gm.Param("cfg", "normal", vals=["None", "{'a': 1}", "{'a': 's'}", "{'b': 1.5}"]),
+                       gm.Param("many", "normal", vals=["[None, {'a': 1}]", "[{'a': 's'}]", "[{1: 2}, None]", "[{1: 's'}]"])]
+        cfgf.ret_vals = ["{'r': 1}", "None", "{'r': 's'}", "{'r': None}"]
+        extra = [fam, tdf, tup, abcf] + dds + [hist, yf, cfgf]
         nfixed = len(extra)
         if spec.get("collide"):
             # pinned witness of the listed finding: two functions share a parameter name and get differently shaped dicts
@@ -180,6 +185,7 @@ def work(p):
         plan = m.call_plan(rng, None, ncalls=(4, 12)) + [(fam, [v], {}) for v in fam.params[0].vals] + [(tdf, [v], {}) for v in tdf.params[0].vals] + [(tup, [v], {}) for v in tup.params[0].vals] + [(abcf, [v], {}) for v in abcf.params[0].vals]
         plan += [(f, [v], {}) for f in dds for v in f.params[0].vals] + [(hist, [v, w], {}) for v in hist.params[0].vals for w in hist.params[1].vals]
         plan += [(f, [f.params[0].vals[0]], {}) for f in extra[nfixed:]] + [(yf, ["1"], {})] * 3
+        plan += [(cfgf, [v, w], {}) for v, w in zip(cfgf.params[0].vals, cfgf.params[1].vals)]
         traces = modrun.trace_plan(tmod, path, m, plan, k)
         from monkeytype.tracing import CallTrace
 
